@@ -66,6 +66,14 @@ func init() {
 					r.Unresolved("no else-if on an error value found")
 				}
 			}},
+			{ID: "C17.R19", Floor: 1, Doc: "no unlabelled break as the last statement of a switch / select case inside a loop (it leaves the switch, not the loop)", Run: func(p *Program, r *Report) {
+				n := noopBreaks(p, r)
+				if n == 0 {
+					r.Unresolved("no switch or select inside a loop in the module")
+				} else {
+					r.OK(nil, itoa(n)+" cases of switches / selects inside loops examined", "census")
+				}
+			}},
 			{ID: "C17.R18", Floor: 6, Doc: "every loop without a condition in the module can be left (return, break out, panic): no background goroutine is unstoppable by construction", Run: func(p *Program, r *Report) {
 				if endlessLoops(p, r) == 0 {
 					r.Unresolved("no loop without a condition in the module")
